@@ -66,6 +66,10 @@ inductive FileSrc
   | seeker (c : Str) (consumed : Bool)
   /-- `SetFileReader` with a reader that cannot be rewound (bytes.Buffer, a pipe, a network stream) -/
   | stream (c : Str) (consumed : Bool)
+  /-- `SetFileReader` with a reader that is also an `io.Closer` (`*os.File`, any ReadSeekCloser):
+  `GetFileContent` hands the reader itself to every attempt and the first attempt closes it
+  (`defer content.Close()`), seekable or not -/
+  | closer (c : Str) (consumed : Bool)
 deriving DecidableEq, Repr
 
 structure FileUp where
@@ -159,10 +163,14 @@ def fileContent (v : Variant) : FileSrc → Str
   | .path c => c
   | .seeker c consumed => if consumed && !v.fileRewind then [] else c
   | .stream c consumed => if consumed then [] else c
+  -- nothing can be read from a closed reader (the code even drops the part: the failed rewind
+  -- is ignored by writeMultiPart); unreachable in the repaired code, `Do` refuses such a request
+  | .closer c consumed => if consumed then [] else c
 
 def FileSrc.consume : FileSrc → FileSrc
   | .seeker c _ => .seeker c true
   | .stream c _ => .stream c true
+  | .closer c _ => .closer c true
   | s => s
 
 /-- `writeMultipartFormFile` sniffs the whole 512-byte buffer `cbuf`, not `cbuf[:size]`: a
@@ -233,6 +241,7 @@ def build (v : Variant) (c : ClientCfg) (st : ReqState) (k : Nat) : Wire :=
 upload readers that cannot be rewound. -/
 def unreplayable (v : Variant) (st : ReqState) : Bool :=
   (match st.body with | .reader _ _ => true | _ => false) ||
-  (v.fileRewind && st.files.any fun f => match f.src with | .stream _ _ => true | _ => false)
+  (v.fileRewind && st.files.any fun f =>
+    match f.src with | .stream _ _ => true | .closer _ _ => true | _ => false)
 
 end Req.Attempt
